@@ -1,10 +1,10 @@
 package verifsim
 
 import (
-	"io"
 	"encoding/json"
 	"fmt"
 	"hash/fnv"
+	"io"
 	"os"
 	"runtime/debug"
 	"sort"
